@@ -813,13 +813,41 @@ def _parse_probe(prog, pat):
     def h_free(ip, fn, e, args, env):
         err.append(1)                  # a partial tree is discarded only on a parse error
         return None
+    def h_memcpy(ip, fn, e, args, env):
+        d, s_, n_ = args[0], args[1], args[2]
+        if isinstance(d, dict) and isinstance(s_, Ptr) and isinstance(n_, int):
+            for i in range(n_):
+                d[i] = s_.read(i)
+        return None
     cell = {"__deref__": Ptr(tuple(pat) + (0,))}
     ip = Interp(prog, hooks={"rnode_make": h_make, "rnode_free": h_free, "malloc": lambda *a: {},
-                             "memcpy": lambda *a: None, "memset": lambda *a: None},
+                             "memcpy": h_memcpy, "memset": lambda *a: None},
                 max_depth=60, max_steps=400000)
     r = ip.call(f, [cell])
     cur = cell["__deref__"]
     return r, (cur.off if isinstance(cur, Ptr) else None), bool(err)
+
+
+def _quantified_literals(tree, chr_kind=0):
+    """byte strings of the literal atoms that carry a repetition"""
+    out = []
+    stack = [tree]
+    while stack:
+        n = stack.pop()
+        if not isinstance(n, dict):
+            continue
+        if not isinstance(n.get("c1"), dict) and not isinstance(n.get("c2"), dict) and isinstance(n.get("ra"), dict) \
+                and n["ra"].get("ra") == chr_kind and (n.get("mincnt"), n.get("maxcnt")) != (1, 1):
+            buf = n["ra"].get("s")
+            if isinstance(buf, dict):
+                bs = []
+                i = 0
+                while isinstance(buf.get(i), int) and buf[i] != 0 and i < 64:
+                    bs.append(buf[i] & 0xff)
+                    i += 1
+                out.append(bytes(bs))
+        stack += [n.get("c1"), n.get("c2")]
+    return out
 
 
 def _r11_chunk(args):
@@ -839,6 +867,19 @@ def _r11_chunk(args):
         n += 1
         if err and isinstance(r, dict) and rest == len(pat) and bad is None:
             bad = ("dropped", pat, "")
+        if isinstance(r, dict) and bad is None:
+            # a repetition binds to one character: the repeated literal atom is a single
+            # character by the engine's own length function
+            ul = prog.func("uc_len", file="regex.c")
+            for lit in _quantified_literals(r):
+                if not lit:
+                    continue
+                try:
+                    l1 = Interp(prog).call(ul, [Ptr(tuple(lit) + (0,))])
+                except (Unsupported, OverRead):
+                    continue
+                if isinstance(l1, int) and l1 != len(lit):
+                    bad = ("run", pat, lit)
     return bad, n
 
 
@@ -983,7 +1024,12 @@ def rule_R11(ctx):
             raise AnalysisBroken("rnode_parse not evaluable on %r: %s" % (b[1], b[2]))
     if bads:
         b = sorted(bads, key=lambda x: (len(x[1]), x[1]))[0]
-        if b[0] == "hang":
+        if b[0] == "run":
+            ctx.violation("ratom_read", "a repetition binds to one character",
+                          "in the pattern %r the repeated literal atom is %r, %d bytes, but its first character "
+                          "is shorter: the quantifier applies to a run of characters instead of the last one" % (
+                              b[1].decode("latin-1"), b[2].decode("latin-1"), len(b[2])))
+        elif b[0] == "hang":
             ctx.violation("rnode_parse", "parser terminates",
                           "on the pattern %r a loop of the parser stops consuming input (more than 5000 passes "
                           "over %d bytes): regcomp never returns" % (b[1].decode("latin-1"), len(b[1])))
@@ -1002,4 +1048,122 @@ def rule_R11(ctx):
 
 
 
-RULES = {"R1": rule_R1, "R2": rule_R2, "R3": rule_R3, "R7": rule_R7, "R8": rule_R8, "R10": rule_R10, "R11": rule_R11}
+def rule_R12(ctx):
+    """Every start position is tried from a fresh state: each field of the matching state that
+    re_rec changes and does not put back when it fails (program counter, depth, marks, subject
+    pointer) is stored again inside the scan loop before the next re_rec.  Otherwise a failed
+    attempt leaks depth or group marks into the next start position (matches are missed after
+    NDEPT failures; a group that did not take part reports a stale span)."""
+    ctx.begin("R12", floor=3, what="matching state re-initialised per start position")
+    prog = ctx.prog
+    rec = prog.func("re_rec", file="regex.c")
+    rx = prog.func("regexec", file="regex.c")
+    # fields re_rec (and the atom matcher) store
+    written = set()
+    for g in (rec, prog.func("ratom_match", file="regex.c")):
+        for n, lv, op, rhs in stores(g.body):
+            lf = lv_field(lv)
+            if lf and lf[0] == "rstate":
+                written.add(lf[1])
+    if len(written) < 3:
+        raise AnalysisBroken("re_rec: stores to the matching state not found (%s)" % sorted(written))
+    # is the depth counter balanced on every return of re_rec?
+    from ..cfg import paths_to
+    from ..util import path_consistent
+    balanced = True
+    for r in rec.cfg.return_nodes():
+        for items in paths_to(rec.cfg, rec.cfg.entry, r["id"], max_paths=3000):
+            d = 0
+            for it in items:
+                if it[0] != "ev":
+                    continue
+                n = rec.nodes.get(it[1])
+                if n is not None and n["k"] == "un" and n["op"] in ("post++", "pre++", "post--", "pre--") \
+                        and lv_field(n["e"]) and lv_field(n["e"])[1] == "dep":
+                    d += 1 if "++" in n["op"] else -1
+            if d != 0:
+                balanced = False
+    # the scan loop and the chain of calls from it to re_rec
+    loops = [x for x in rx.walk() if x["k"] in ("while", "for", "do")]
+    if not loops:
+        raise AnalysisBroken("regexec: scan loop not found")
+    lp = loops[0]
+    chain = []          # (function, call node) from the loop body down to the re_rec call
+    f, body = rx, lp
+    for _ in range(4):
+        direct = [c for c in calls_in(body) if c.get("fn") == "re_rec"]
+        if direct:
+            chain.append((f, direct[0]))
+            break
+        nxt = None
+        for c in calls_in(body):
+            g = prog.resolve(f, c["fn"]) if c.get("fn") else None
+            if g is not None and g.file == "regex.c" and prog.cg.reaches(g, ["re_rec"], stop=set()):
+                nxt = (g, c)
+                break
+        if nxt is None:
+            break
+        chain.append((f, nxt[1]))
+        f, body = nxt[0], nxt[0].body
+    if not chain or chain[-1][1].get("fn") != "re_rec":
+        raise AnalysisBroken("regexec: no call chain from the scan loop to re_rec")
+
+    def fresh_store(g, call, field, in_loop=None, depth=0):
+        """a store to the field (or a helper doing it) that precedes the call on every pass"""
+        for n, lv, op, rhs in stores(g.body):
+            lf = lv_field(lv)
+            if not lf or lf[0] != "rstate" or lf[1] != field or op not in ("=",):
+                continue
+            if in_loop is not None and not any(x["id"] == n["id"] for x in walk(in_loop)):
+                continue
+            if g.cfg.pos(n) is None or g.cfg.pos(call) is None:
+                continue
+            if g.cfg.dominates(n, call):
+                return n
+            # a store inside a fill loop whose head dominates the call (for (i...) mark[i] = -1)
+            for x in g.walk():
+                if x["k"] in ("for", "while") and any(y["id"] == n["id"] for y in walk(x["body"])) \
+                        and x.get("c") is not None and not any(y["id"] == call["id"] for y in walk(x)):
+                    c0 = flatten_and(x["c"])[0]
+                    if g.cfg.pos(c0) is not None and g.cfg.dominates(c0, call):
+                        return n
+        if depth < 2:
+            for c in g.calls():
+                h = prog.resolve(g, c["fn"]) if c.get("fn") else None
+                if h is None or h.file != "regex.c" or c["id"] == call["id"] or h.name == "re_rec":
+                    continue
+                if in_loop is not None and not any(x["id"] == c["id"] for x in walk(in_loop)):
+                    continue
+                if g.cfg.pos(c) is not None and g.cfg.dominates(c, call):
+                    ends = list(h.cfg.return_nodes()) or [None]
+                    last = h.nodes.get(h.cfg.blocks[h.cfg.exit].pred[0]) if False else None
+                    for n, lv, op, rhs in stores(h.body):
+                        lf = lv_field(lv)
+                        if lf and lf[0] == "rstate" and lf[1] == field and op == "=":
+                            return n
+        return None
+    for field in sorted(written):
+        if field == "dep" and balanced:
+            ctx.ok("re_rec", "the depth counter is balanced on every return")
+            continue
+        found = None
+        for i, (g, call) in enumerate(chain):
+            found = fresh_store(g, call, field, in_loop=lp if i == 0 else None)
+            if found is not None:
+                break
+        if found is not None:
+            ctx.ok(chain[-1][0].name, "%s is set afresh for every start position" % field)
+        else:
+            what = {"dep": "re_rec leaves the depth raised when an atom fails, so after NDEPT failed start "
+                           "positions every later attempt fails at once and matches are missed",
+                    "mark": "the group marks of a failed attempt are seen by the next start position: a group "
+                            "that does not take part in the match reports a stale span",
+                    "pc": "the next attempt starts in the middle of the program",
+                    "s": "the next attempt does not start at its own position"}.get(field, "state leaks")
+            ctx.violation(chain[-1][0].name, "%s re-initialised per start position" % field,
+                          "no store to the state's %s precedes re_rec inside the scan loop of regexec: %s" % (
+                              field, what), chain[-1][0].loc(chain[-1][1]))
+
+
+
+RULES = {"R1": rule_R1, "R2": rule_R2, "R3": rule_R3, "R7": rule_R7, "R8": rule_R8, "R10": rule_R10, "R11": rule_R11, "R12": rule_R12}
